@@ -1423,6 +1423,8 @@ class Corr:
             rmat.append(np.copy(tmpmat))
 
         newcontent = [None if (self.content[t] is None) else rmat[t] for t in range(self.T)]
+        if Ntrunc == 1:
+            newcontent = [None if entry is None else entry[0, 0] for entry in newcontent]
         return Corr(newcontent)
 
 
